@@ -10,6 +10,7 @@ import (
 	"fmt"
 	"math/rand"
 	"reflect"
+	"runtime"
 	"strings"
 	"sync"
 	"sync/atomic"
@@ -67,6 +68,16 @@ func init() {
 		}
 	}
 	alphabets["U"] = u
+	// "V": 48 transactions that are valid whatever the head state is (KindV of MCMempool.tla)
+	var v []txSpec
+	for i := 1; i <= 48; i++ {
+		if i%2 == 1 {
+			v = append(v, txSpec{"l1handler", 0, 0})
+		} else {
+			v = append(v, txSpec{"deployacc", 0, 0})
+		}
+	}
+	alphabets["V"] = v
 }
 
 func accountAddr(a int) *felt.Felt {
@@ -252,21 +263,20 @@ const writerErrMsg = "error in handling user transaction in persistent mempool"
 
 var errDead = errors.New("gate: the process is gone")
 
-// gate wraps the pool's store. writeToDB starts with NewBatch(): in stepping mode that call
-// reports the writer's arrival (it has taken a transaction from the channel) and blocks until the
-// harness grants one write. A dead gate fails everything (the old process after a crash).
+// gate wraps the pool's store. writeToDB opens its batch with NewBatch(): in stepping mode that
+// call blocks (the writer has taken a transaction from the channel and holds it) until the harness
+// grants one write. A dead gate fails everything (the old process after a crash).
 type gate struct {
 	db.KeyValueStore
 	stepping atomic.Bool
 	dead     atomic.Bool
-	arrive   chan struct{}
 	permit   chan struct{}
 	done     chan error // completion of one writeToDB: nil (batch written) or the logged error
 	delay    func()     // free-running mode: called before every batch (stalls the writer)
 }
 
 func newGate(inner db.KeyValueStore, stepping bool) *gate {
-	g := &gate{KeyValueStore: inner, arrive: make(chan struct{}, 1024), permit: make(chan struct{}, 1024), done: make(chan error, 1024)}
+	g := &gate{KeyValueStore: inner, permit: make(chan struct{}, 1024), done: make(chan error, 1024)}
 	g.stepping.Store(stepping)
 	return g
 }
@@ -289,8 +299,7 @@ func (b *gbatch) Write() error {
 
 func (g *gate) NewBatch() db.Batch {
 	if g.stepping.Load() && !g.dead.Load() {
-		g.arrive <- struct{}{}
-		<-g.permit
+		<-g.permit // the harness sees the writer waiting here (writerStates)
 	} else if d := g.delay; d != nil && !g.dead.Load() {
 		d()
 	}
@@ -440,6 +449,7 @@ func (s *sut) abandon() {
 		defer func() { _ = recover() }() // Close of an already closed pool panics
 		p.Close()
 	}()
+	awaitNoWriter(stepTimeout)
 }
 
 // restart closes and opens the database again where that is a real restart.
@@ -467,31 +477,67 @@ func (s *sut) closeAll() {
 	}
 }
 
-// awaitArrival waits until the writer goroutine stands at the gate.
-func (s *sut) awaitArrival(d time.Duration) bool {
-	if s.holding {
-		return true
+// writerStates looks at the goroutines of the process: a pool's writer goroutine (dbWriter) is
+// either waiting at the gate with a transaction in its hand, or waiting on the empty write channel,
+// or busy. This is how the harness knows that the pool has come to rest, whatever the code did.
+func writerStates() (gated, idle, busy int) {
+	buf := make([]byte, 1<<20)
+	for {
+		n := runtime.Stack(buf, true)
+		if n < len(buf) {
+			buf = buf[:n]
+			break
+		}
+		buf = make([]byte, 2*len(buf))
 	}
-	select {
-	case <-s.gate.arrive:
-		s.holding = true
-		return true
-	case <-time.After(d):
-		return false
+	for _, blk := range strings.Split(string(buf), "\n\n") {
+		if !strings.Contains(blk, "mempool.(*SequencerMempool).dbWriter") {
+			continue
+		}
+		head, _, _ := strings.Cut(blk, "\n")
+		switch {
+		case strings.Contains(blk, "engines/mempool.(*gate).NewBatch") && strings.Contains(head, "[chan receive"):
+			gated++
+		case strings.Contains(head, "[chan receive") && !strings.Contains(blk, "writeToDB"):
+			idle++
+		default:
+			busy++
+		}
+	}
+	return
+}
+
+// settle waits until no writer goroutine is busy; it reports whether one holds a transaction at the gate.
+func settle(d time.Duration) bool {
+	deadline := time.Now().Add(d)
+	for {
+		gated, _, busy := writerStates()
+		if busy == 0 || time.Now().After(deadline) {
+			return gated > 0
+		}
+		time.Sleep(20 * time.Microsecond)
 	}
 }
 
-// pollArrival notices an arrival without waiting.
-func (s *sut) pollArrival() {
-	if s.holding {
-		return
-	}
-	select {
-	case <-s.gate.arrive:
-		s.holding = true
-	default:
+// awaitNoWriter waits until the writer goroutines of abandoned pools are gone.
+func awaitNoWriter(d time.Duration) {
+	deadline := time.Now().Add(d)
+	for {
+		gated, idle, busy := writerStates()
+		if gated+idle+busy == 0 || time.Now().After(deadline) {
+			return
+		}
+		time.Sleep(50 * time.Microsecond)
 	}
 }
+
+// awaitArrival brings the pool to rest and reports whether the writer goroutine stands at the gate.
+func (s *sut) awaitArrival(d time.Duration) bool {
+	s.holding = settle(d)
+	return s.holding
+}
+
+func (s *sut) pollArrival() { s.holding = settle(stepTimeout) }
 
 // ------------------------------------------------------------------ projection of the persistent list
 
